@@ -6,7 +6,7 @@ variable {H Chain Blocks : Type}
 
 /-- the invariant: the tree's root is the seeded (signed) root and every validated share hashes to it -/
 def RInv (T : TreeOps H Chain) (bhtRoot : Blocks → H) (root : H) (r : Retr H Blocks) : Prop :=
-  r.tree = some root ∧ ∀ i b, (i, b) ∈ r.shares → ∃ c, T.chainRoot c i (bhtRoot b) = root
+  r.tree = some root ∧ ∀ i b, (i, b) ∈ r.shares → ∃ c, T.chainRoot c i (bhtRoot b) = some root
 
 theorem rinv_setup (T : TreeOps H Chain) (bhtRoot : Blocks → H) (root : H) :
     RInv T bhtRoot root (Retr.setup root : Retr H Blocks) :=
@@ -18,7 +18,11 @@ theorem rinv_step [DecidableEq H] (T : TreeOps H Chain) (bhtRoot : Blocks → H)
   cases e with
   | fail i => exact ⟨by simp [rstep, markBad, ht], by simpa [rstep, markBad] using hs⟩
   | offer i c b =>
-    simp only [rstep, ht]
+    simp only [rstep]
+    split
+    · exact ⟨by simp [markBad, ht], by simpa [markBad] using hs⟩
+    rename_i computed hcr
+    simp only [ht]
     split
     · rename_i heq
       refine ⟨rfl, ?_⟩
@@ -26,7 +30,7 @@ theorem rinv_step [DecidableEq H] (T : TreeOps H Chain) (bhtRoot : Blocks → H)
       simp only [List.mem_append, List.mem_singleton, Prod.mk.injEq] at hmem
       rcases hmem with hmem | ⟨hi, hb⟩
       · exact hs i' b' hmem
-      · subst hi; subst hb; exact ⟨c, heq⟩
+      · subst hi; subst hb; exact ⟨c, by rw [hcr, heq]⟩
     · exact ⟨by simp [markBad, ht], by simpa [markBad] using hs⟩
 
 theorem rinv_run [DecidableEq H] (T : TreeOps H Chain) (bhtRoot : Blocks → H) (root : H) (evs : List (REv Chain Blocks))
